@@ -16,6 +16,16 @@ import numpy as np
 from vlib import gen, refmodel, tracegen
 
 
+def _cid(x):
+    """Cluster id as the run names its data point: the id's text (integers without a decimal point)."""
+    try:
+        if float(x) == int(float(x)) and not isinstance(x, str):
+            return str(int(x))
+    except (TypeError, ValueError):
+        pass
+    return str(x)
+
+
 def corner_forests(n):
     idx = list(range(n))
     out = [("single clone", gen.AForest([idx], [None]))]
@@ -76,7 +86,7 @@ def check_table(part, case, table, newick_str, data, samples, tree_key_expected,
     if clusters is not None:
         by_cluster = {}
         for _, r in clusters.iterrows():
-            by_cluster.setdefault(int(r["cluster_id"]), set()).add(clone_of[str(r["mutation_id"])])
+            by_cluster.setdefault(_cid(r["cluster_id"]), set()).add(clone_of[str(r["mutation_id"])])
         for cl, clones in by_cluster.items():
             if len(clones) != 1:
                 part.violation("mutations of one cluster are assigned to different clones", dict(case, cluster=cl))
@@ -84,13 +94,13 @@ def check_table(part, case, table, newick_str, data, samples, tree_key_expected,
         name_to_idx = {str(dp.name): dp.idx for dp in data}
         key_map = {}
         for _, r in clusters.iterrows():
-            if str(int(r["cluster_id"])) not in name_to_idx:
+            if _cid(r["cluster_id"]) not in name_to_idx:
                 if clone_of[str(r["mutation_id"])] != "-1":
                     part.violation("mutation of a cluster that has no data point is not reported with clone id -1",
                                    dict(case, mutation=str(r["mutation_id"]), clone=clone_of[str(r["mutation_id"])]))
                     ok = False
                 continue
-            key_map[name_to_idx[str(int(r["cluster_id"]))]] = clone_of[str(r["mutation_id"])]
+            key_map[name_to_idx[_cid(r["cluster_id"])]] = clone_of[str(r["mutation_id"])]
         key = tracegen.newick_key(tracegen.parse_newick(newick_str), key_map)
     else:
         name_to_idx = {str(dp.name): dp.idx for dp in data}
@@ -112,7 +122,7 @@ def objective_check(part, case, table, newick_str, data, samples, clusters, what
     by_idx = {dp.idx: dp for dp in data}
     cl_of_mut = None
     if clusters is not None:
-        cl_of_mut = {str(r["mutation_id"]): str(int(r["cluster_id"])) for _, r in clusters.iterrows()}
+        cl_of_mut = {str(r["mutation_id"]): _cid(r["cluster_id"]) for _, r in clusters.iterrows()}
     members, ccf_of = {}, {}
     for _, r in table.iterrows():
         cid = str(r["clone_id"])
@@ -220,16 +230,21 @@ def table_task(task):
             if clustered:
                 # data points are clusters named by their integer id; a cluster table maps 1-3 mutations to each
                 rows = []
+                # cluster ids are integers (PyClone-VI) or any text; data points are created in sorted id order
+                textual = c % 9 == 5
+                ident = (lambda k: "cl%02d" % k) if textual else (lambda k: k)
                 for dp in data:
-                    dp.name = str(2 * dp.idx + 3)
+                    dp.name = str(ident(2 * dp.idx + 3))
                     for j in range(int(rng.integers(1, 4))):
-                        rows.append({"mutation_id": "m%d_%d" % (dp.idx, j), "cluster_id": 2 * dp.idx + 3})
+                        rows.append({"mutation_id": "m%d_%d" % (dp.idx, j), "cluster_id": ident(2 * dp.idx + 3)})
                 if c % 2 == 0:
                     # clusters of the cluster file that lost all their mutations on loading have no data point: their
                     # mutations are still input mutations and are reported with clone id -1
                     gone = 2 * int(rng.integers(0, n)) + 2
                     for j in range(int(rng.integers(1, 3))):
-                        rows.append({"mutation_id": "gone%d_%d" % (gone, j), "cluster_id": gone})
+                        rows.append({"mutation_id": "gone%d_%d" % (gone, j), "cluster_id": ident(gone)})
+                if textual:
+                    part.count("traces_with_textual_cluster_ids")
                 clusters = pd.DataFrame(rows).sort_values(by=["cluster_id", "mutation_id"]).reset_index(drop=True)
             corners = corner_forests(n)
             label, f = corners[c % len(corners)] if c % 2 == 0 else ("random", gen.random_forest(rng, n, p_outlier=0.25))
